@@ -24,14 +24,14 @@ INFO = {
  "C06_2": ("FileStorage::write counts every growing write as a pure append", "one write that starts inside the data and ends past the end", "VIOLATION by c06_file_storage_one_call, c06_any_file_matches_reference, c06_memory_mapped_one_call"),
  "C07_1": ("Storage::extract_version: fit check drops the header size", "a file truncated inside the version record value (length 17..=23) or a version size reaching into the last 16 bytes", "VIOLATION by c07_mem_bad_version_size"),
  "C07_2": ("GraphDataStorageIndexes::deserialize slices exact 8-byte ranges instead of open-ended ones", "a graph index record shorter than 32 bytes in an otherwise consistent file", "VIOLATION by c07_graph_storage_indexes_arbitrary"),
- "C10_1": ("IndexedMapImpl::insert: the 'key already existed' branch returns before removing the stale forward entry", "one insert that is both a steal and a re-alias: a->1, b->2, then a->2", "C10_1_RESULT"),
+ "C10_1": ("IndexedMapImpl::insert: the 'key already existed' branch returns before removing the stale forward entry", "one insert that is both a steal and a re-alias: a->1, b->2, then a->2", "first MISSED (needs three inserts; the quick tier had two); VIOLATION by c10_indexed_map_inserts_keep_bijection after that harness (1..3 symbolic inserts) was moved from thorough to quick"),
  "C10_2": ("IndexedMapImpl::insert: reverse removal guarded by `v != *value`", "inserting the identical (alias, node) pair twice", "VIOLATION by c10_indexed_map_two_inserts_keep_bijection"),
  "C16_1": ("SearchQuery::sort: `(None, None) => break` instead of Equal", "ordered search with two or more keys where two elements both lack a non-last key but differ on a later one", "MISSED (exit 0): the sort comparator reads values through DbImpl, which is outside the C16 claim (stated in the manifest)"),
  "C16_2": ("LimitOffsetHandler::process returns Continue(false) early for elements skipped by the offset", "unordered search with limit AND offset and a not_beyond/beyond condition whose Stop falls on a skipped element", "MISSED (exit 0): the handler harnesses use an empty condition list; a variant with pruning conditions was written and ran out of memory (conditions on the heap), so pruning conditions in the streaming handlers stay outside the claim"),
  "C17_1": ("PathSearch::sort_paths orders by number of elements first, cost second", "a path with more hops that is strictly cheaper", "VIOLATION by c17_sort_paths_cheapest_last"),
  "C17_2": ("PathSearch::expand_node exempts the destination from 'stopped elements cannot be used'", "conditions that evaluate to Stop exactly on the destination", "VIOLATION by c17_expand_successors, c17_expand_skips_selfloop, c17_single_edge_end_to_end"),
- "C22_1": ("derive(DbType): the generated reader of a renamed Option field looks the value up under the field identifier", "a field that is both Option<T> and renamed and holds Some", "C22_1_RESULT"),
- "C22_2": ("TryFrom<DbValue> for f32 rejects values beyond f32::MAX, i.e. also +-infinity", "an f32 field holding an infinity", "C22_2_RESULT"),
+ "C22_1": ("derive(DbType): the generated reader of a renamed Option field looks the value up under the field identifier", "a field that is both Option<T> and renamed and holds Some", "first MISSED (no corpus type had a field both renamed and optional); VIOLATION by c22_renamed_option_field after that harness was added"),
+ "C22_2": ("TryFrom<DbValue> for f32 rejects values beyond f32::MAX, i.e. also +-infinity", "an f32 field holding an infinity", "first MISSED (no f32 in the corpus); VIOLATION by c22_scalar_conversions_are_lossless (all 2^32 f32 bit patterns) after that harness was added"),
 }
 rows = []
 for name in sorted(os.listdir(os.path.join(V, "seeded"))):
